@@ -27,6 +27,8 @@ import (
 const (
 	reqTimeout   = 100 * time.Millisecond
 	lateDelay    = 150 * time.Millisecond
+	stallFor     = 560 * time.Millisecond // longer than the 5 read attempts of one timeout each
+	lateStart    = 540 * time.Millisecond // op "L": a query submitted after the stalled read was given up, before the rest arrives
 	coalesceWait = 200 * time.Microsecond
 )
 
@@ -177,6 +179,32 @@ func (w *world) handler(n *vnode.Node, sc *vnode.ServerConn, rec *vnode.ReqRec) 
 		return vnode.Reply{Msg: rows, CutAt: 5}
 	case "cutbody":
 		return vnode.Reply{Msg: rows, CutAt: frame.HeaderSize(rec.Req.Header.Version) + 7}
+	case "stall":
+		// The body arrives in two parts separated by a stall longer than the client keeps retrying the read.
+		// The second part is, byte for byte, well-formed response frames for the stream ids in use: a client
+		// that goes on reading frames after giving up on the body hands them to whoever holds those ids.
+		var tail []byte
+		ids := map[int]bool{}
+		for _, old := range n.Log {
+			if old.Conn == rec.Conn && old.Stream > 0 {
+				ids[old.Stream] = true
+			}
+		}
+		for s := 1; s <= hi && s <= 127; s++ {
+			if s <= 8 || s >= 120 || ids[s] {
+				enc, err := frame.Encode(&frame.Response{Version: rec.Req.Header.Version, Stream: s, Msg: vnode.TextRows("t", "stolen")})
+				if err != nil {
+					panic(err)
+				}
+				tail = append(tail, enc.Bytes()...)
+			}
+		}
+		enc, err := frame.Encode(&frame.Response{Version: rec.Req.Header.Version, Stream: rec.Stream, Msg: vnode.TextRows("t", label+"|"+string(tail))})
+		if err != nil {
+			panic(err)
+		}
+		raw := enc.Bytes()
+		return vnode.Reply{Raw: raw, StallAt: len(raw) - len(tail), StallFor: stallFor}
 	}
 	return vnode.Reply{Msg: rows}
 }
@@ -365,6 +393,9 @@ func (c *cfgT) body(prop string) {
 		vs.GoNamed(fmt.Sprintf("caller%d", i), func() {
 			for k, op := range ops {
 				label := fmt.Sprintf("c%dq%d", i, k)
+				if op == "L" {
+					vs.Sleep(lateStart - vs.Clock())
+				}
 				ctx := context.WithValue(ctxs[i], labelKey{}, label)
 				r := result{label: label, op: op, start: vs.Clock()}
 				switch op {
@@ -698,6 +729,11 @@ func min(a, b int) int {
 func (c *cfgT) build(prop string) func() *vs.Scenario {
 	return func() *vs.Scenario {
 		hz := 700 * time.Millisecond
+		for _, f := range c.fates {
+			if f == "stall" {
+				hz = 5 * time.Second // a stall that starts after timer deviations still ends inside the horizon
+			}
+		}
 		if c.heartbeat {
 			hz = 1300 * time.Millisecond
 		}
@@ -723,7 +759,10 @@ func connScenarios() []*cfgT {
 		{name: "v2-3x1-free2-writefault", props: "C01", proto: 2, callers: [][]string{q(1), q(1), q(1)}, freeIDs: 2, canceller: -1, writeFault: "some", fates: []string{"reply", "late"}, t: [2]int{2, 4}},
 		{name: "v4-2x2-fates", props: "C01", proto: 4, callers: [][]string{q(2), q(2)}, canceller: -1, fates: all, t: [2]int{2, 4}},
 		{name: "v2-2x2-free2-coalesce", props: "C01", proto: 2, callers: [][]string{q(2), q(2)}, freeIDs: 2, canceller: -1, coalesce: true, fates: rln, t: [2]int{2, 4}},
-		{name: "v2-2x2-free2-coalesce-cancel", props: "C01", proto: 2, callers: [][]string{q(2), q(2)}, freeIDs: 2, canceller: 0, coalesce: true, fates: rln, t: [2]int{2, 4}},
+		{name: "v2-2x2-free2-coalesce-cancel", props: "C01 C06", proto: 2, callers: [][]string{q(2), q(2)}, freeIDs: 2, canceller: 0, coalesce: true, fates: rln, t: [2]int{2, 4}},
+		{name: "v2-1+1-free1-coalesce-cancel-deep", props: "C01 C06", proto: 2, callers: [][]string{q(1), q(1)}, freeIDs: 1, canceller: 0, coalesce: true, fates: []string{"reply", "late"}, t: [2]int{4, 6}},
+		{name: "v4-stalled-body-late-caller", props: "C01 C06", proto: 4, callers: [][]string{q(1), {"L"}}, canceller: -1, fates: []string{"reply", "stall", "late"}, t: [2]int{2, 3}},
+		{name: "v2-stalled-body-late-caller-free2", props: "C01 C06", proto: 2, callers: [][]string{q(2), {"L"}}, freeIDs: 2, canceller: -1, fates: []string{"reply", "stall"}, t: [2]int{2, 3}},
 		{name: "v2-3x2-free1-late", props: "C01", proto: 2, callers: [][]string{q(2), q(2), q(2)}, freeIDs: 1, canceller: -1, fates: rln, t: [2]int{2, 4}},
 		// C06
 		{name: "v4-buildfail-cancel", props: "C06", proto: 4, callers: [][]string{{"b", "q"}, {"q", "b"}}, canceller: 1, fates: rln, t: [2]int{3, 4}},
@@ -757,7 +796,7 @@ func connDefs(prop string) []mcreport.Def {
 		c := c
 		b := func(t int) vs.Bounds { return vs.Bounds{P: t, D: t, F: t, T: t} }
 		qt := c.t[0]
-		if prop != "C01" && strings.Contains(c.props, "C01") && qt > 2 {
+		if prop != "C01" && strings.Contains(c.props, "C01") && qt > 2 && !strings.HasSuffix(c.name, "-deep") {
 			qt = 2 // scenarios shared with C01 are explored deeper there
 		}
 		defs = append(defs, mcreport.Def{Name: c.name, Build: c.build(prop), Quick: b(qt), Thorough: b(c.t[1])})
